@@ -9,14 +9,17 @@ import Stgutg.Model.FailStop
 namespace Stgutg.Proofs.GenTie.Min
 open Stgutg
 
-/-- **Tie.** The translated `Min` is the hand model used by the emulator / fail-stop models (C01, C02, C19). -/
+/-- **Tie.** (The proof is by cases and arithmetic, so a rewrite of `Min` that computes the same function, e.g. `x >= y`,
+    still checks; one that does not, fails.) The translated `Min` is the hand model used by the emulator / fail-stop models (C01, C02, C19). -/
 theorem Min_eq : Gen.Pure.Min.Min = Model.FailStop.goMin := by
   funext x y
-  simp [Gen.Pure.Min.Min, Model.FailStop.goMin]
+  unfold Gen.Pure.Min.Min Model.FailStop.goMin
+  split <;> split <;> simp_all <;> omega
 
 /-- … and the copy the configuration model (C18) uses. -/
 theorem Min_eq_config : Gen.Pure.Min.Min = Model.Config.goMin := by
   funext x y
-  simp [Gen.Pure.Min.Min, Model.Config.goMin]
+  unfold Gen.Pure.Min.Min Model.Config.goMin
+  split <;> split <;> simp_all <;> omega
 
 end Stgutg.Proofs.GenTie.Min
